@@ -56,8 +56,8 @@ def expectJ : Expect → Json
   | .deepEqual => jStr "deepEqual"
   | .equalOnly => jStr "equalOnly"
 
-/-- per-field facts of a copy against the original and the keyword arguments -/
-def fieldFacts (self res : Inst) (kw : List (Nat × Obj)) (f : FieldR) : Json :=
+/-- per-field facts of a copy against the original, the keyword arguments and every instance that was alive when it was made -/
+def fieldFacts (live : List Inst) (self res : Inst) (kw : List (Nat × Obj)) (f : FieldR) : Json :=
   match res.fields.lookup f.name with
   | none => jArr [jNat f.name, jBool false]
   | some r =>
@@ -68,29 +68,110 @@ def fieldFacts (self res : Inst) (kw : List (Nat × Obj)) (f : FieldR) : Json :=
           optBoolJ (ko.map (fun k => r.ident k)), optBoolJ (ko.map (fun k => k.veq r)),
           jNat (match so with | some s => countShared r.mutIds s.mutIds | none => 0),
           jNat (countShared r.mutIds self.mutIds),
-          optBoolJ (so.map (fun s => s.seq r))]
+          optBoolJ (so.map (fun s => s.seq r)),
+          jNat (countShared r.mutIds (live.flatMap Inst.mutIds))]
 
 def sameFields : List (Nat × Obj) → List (Nat × Obj) → Bool
   | [], [] => true
   | (k, v) :: r, (k', v') :: r' => k == k' && v.ident v' && v.veq v' && sameFields r r'
   | _, _ => false
 
-def copyJ (deep : Bool) (self : Inst) (kw : List (Nat × Obj)) (n : Nat) : Json :=
-  let r := if deep then deepCopyWith self kw n else copyWith self kw n
+def copyOutJ (live : List Inst) (self : Inst) (kw : List (Nat × Obj)) (r : Except Exc CopyOut) : Json :=
   match r with
   | .error e => mkObj [("out", excJ e)]
   | .ok o =>
-    mkObj [("out", jStr "ok"),
+    mkObj [("out", jStr "ok"), ("othersSame", jBool true),
            ("sameClass", jBool (headCid o.result.cls == headCid self.cls)),
            ("selfSame", match o.selfAfter with
               | some s => jBool (sameFields s.fields self.fields && sameFields s.extra self.extra)
               | none => Json.null),
            ("journal", jArr (o.journal.map evJ)),
-           ("fields", jArr ((fieldsOf self.cls).map (fieldFacts self o.result kw)))]
+           ("fields", jArr ((fieldsOf self.cls).map (fieldFacts live self o.result kw)))]
+
+def copyJ (deep : Bool) (self : Inst) (kw : List (Nat × Obj)) (n : Nat) : Json :=
+  copyOutJ [self] self kw (if deep then deepCopyWith self kw n else copyWith self kw n)
 
 def copySpecJ (deep : Bool) (self : Inst) (kw : List (Nat × Obj)) : Json :=
   mkObj [("valid", jBool (specKwValid self.cls kw)),
          ("expect", jArr ((fieldsOf self.cls).map (fun f => jArr [jNat f.name, expectJ (specExpect deep kw f)])))]
+
+/-! histories -/
+
+def mutOf (j : Json) : Mut :=
+  match jTag j with
+  | "push" => .push ((jL (jAt j 1)).map objOf)
+  | "setAt" => .setAt (jN (jAt j 1)) (objOf (jAt j 2))
+  | _ => .clear
+
+def itemsOf : Obj → List Obj
+  | .atom _ => []
+  | .tup _ items => items
+  | .box _ _ items => items
+
+/-- the node a path of child indices leads to -/
+def resolvePath : Obj → List Nat → Option Obj
+  | o, [] => some o
+  | o, i :: rest =>
+    match (itemsOf o)[i]? with
+    | none => none
+    | some c => resolvePath c rest
+
+def mutableId : Obj → Option Nat
+  | .box k i _ => if k.mutable then some i else none
+  | _ => none
+
+/-- which fields of which live instance hold another value after a step (`seq`: up to identities) -/
+def changedJ (before after : List Inst) : Json :=
+  jArr ((before.zip after).map (fun (a, b) =>
+    jArr (a.fields.map (fun kv => jArr [jNat kv.1, jBool (match b.fields.lookup kv.1 with | some v => !(kv.2.seq v) | none => true)]))))
+
+/-- the generator keeps histories inside what the model claims to describe: no mutation below an `init=False` field (its value is
+    recomputed by `__init__`, a copy does not carry the change), no node referenced twice inside one field value (deepcopy's memo is
+    not modelled), keyword objects that are new objects -/
+def histStepOk (h : Hist) : Step → Bool
+  | .change target m =>
+    (allIdsL m.vals).all (fun i => decide (i < h.next)) &&
+    h.insts.all (fun inst => (fieldsOf inst.cls).all (fun f => f.init ||
+      (match inst.fields.lookup f.name with | some v => !(v.allIds.contains target) | none => true)))
+    && h.insts.all (fun inst => inst.fields.all (fun kv => nodupNames kv.2.allIds))
+  | .copy _ kw _ =>
+    let liveIds := h.insts.flatMap Inst.allIds
+    kw.all (fun kv => nodupNames kv.2.allIds && kv.2.allIds.all (fun i => !liveIds.contains i && decide (i < h.next)))
+
+def histJ (spec0 : Inst) : Hist → List Json → List Json × List Json × Bool
+  | _, [] => ([], [], true)
+  | h, j :: rest =>
+    if jTag j == "copy" then
+      let deep := jB (jAt j 1)
+      let kw := kwOf (jAt j 2)
+      let st := Step.copy deep kw (jN (jAt j 3))
+      let ok := histStepOk h st
+      let (h', out) := stepH h st
+      let mj := match out with
+        | .copied recv o => copyOutJ h.insts recv kw (.ok o)
+        | .raised e => mkObj [("out", excJ e)]
+        | .noInst => mkObj [("out", jStr "noinst")]
+        | _ => mkObj [("out", jStr "unknown")]
+      let sj := mkObj [("valid", jBool (specKwValid spec0.cls kw)),
+                       ("expect", jArr ((fieldsOf spec0.cls).map (fun f => jArr [jNat f.name, expectJ (specExpect deep kw f)])))]
+      let (ms, ss, oks) := histJ spec0 h' rest
+      (mj :: ms, sj :: ss, ok && oks)
+    else
+      let tgt := match h.insts[jN (jAt j 1)]? with
+        | none => none
+        | some inst => match inst.fields.lookup (jN (jAt j 2)) with
+          | none => none
+          | some v => (resolvePath v ((jL (jAt j 3)).map jN)).bind mutableId
+      match tgt with
+      | none =>
+        let (ms, ss, oks) := histJ spec0 h rest
+        (mkObj [("out", jStr "nopath")] :: ms, Json.null :: ss, oks)
+      | some t =>
+        let st := Step.change t (mutOf (jAt j 4))
+        let ok := histStepOk h st
+        let (h', _) := stepH h st
+        let (ms, ss, oks) := histJ spec0 h' rest
+        (mkObj [("out", jStr "ok"), ("changed", changedJ h.insts h'.insts)] :: ms, Json.null :: ss, ok && oks)
 
 /-- a sequence of attribute operations on one instance -/
 def attrOps (self : Inst) : List Json → List Json
@@ -151,6 +232,9 @@ def handle (c : Json) : Json :=
     | "copy" =>
       let deep := jB (jAt op 1)
       mkObj [("model", mkObj (head ++ [("op", copyJ deep m.inst opKw m.next)])), ("spec", copySpecJ deep m.inst opKw)]
+    | "hist" =>
+      let (ms, ss, ok) := histJ m.inst ⟨[m.inst], m.next⟩ (jL (jAt op 1))
+      mkObj [("model", mkObj (head ++ [("op", mkObj [("steps", jArr ms), ("histOk", jBool ok)])])), ("spec", mkObj [("steps", jArr ss)])]
     | "attr" =>
       mkObj [("model", mkObj (head ++ [("op", mkObj [("outs", jArr (attrOps m.inst (jL (jAt op 1))))])])),
              ("spec", mkObj [("reject", jBool true)])]
